@@ -354,7 +354,8 @@ def install(sess):
         n = len(group_key)
         if len(values) != n: return "len(values) == len(group_key)"
         if n and _max(group_key) >= len(target): return "max(group_key) < len(target)"
-        if indexer is not None and len(indexer) and int(np.min(indexer)) < -n: return "every position of the indexer >= -len(group_key)"
+        # with check_in_bounds the kernel itself rejects positions outside [-n, n) (proved: raises clause of its contract); only UNCHECKED positions are a precondition
+        if indexer is not None and not check_in_bounds and len(indexer) and int(np.min(indexer)) < -n: return "every unchecked position of the indexer >= -len(group_key)"
         if indexer is not None and not check_in_bounds and len(indexer) and int(np.max(indexer)) >= n: return "every unchecked position of the indexer < len(group_key)"
     monitor(N, "_group_by_reduce", pre_gbr)
     monitor(N, "_cumulative_reduce", lambda group_key, values, reduce_func, ngroups, target, mask=None: _lens(group_key, values, mask=mask, target=target, ngroups=ngroups))
